@@ -16,6 +16,11 @@ pub fn install_panic_hook() {
     std::panic::set_hook(Box::new(|info| {
         let name = std::thread::current().name().unwrap_or("<unnamed>").to_string();
         let msg = format!("{info}");
+        // panics of harness threads (anything that is not a database thread) end the shard: leave a
+        // diagnosis on stderr, which the parent keeps with the failing case
+        if !name.starts_with("raindb-") {
+            eprintln!("harness thread '{name}' panicked: {}", msg.chars().take(600).collect::<String>());
+        }
         if let Ok(mut g) = PANICS.lock() {
             g.push((name, msg));
         }
@@ -235,6 +240,7 @@ fn add_stats(rep: &mut Report, s: &Stats) {
     rep.add("lsm.compactions-with-live-snapshots", s.snapshots_alive_at_compaction);
     rep.add("lsm.obsolete-files-lingering-until-next-pass", s.lingering);
     rep.add("lsm.transitions-validated-against-model", s.events_validated);
+    rep.add("lsm.input-selections-on-real-versions-checked-against-model", s.selections_checked);
     rep.add("lsm.states-validated-against-model", s.states_validated);
     rep.add("lsm.directory-checks-against-retention-model", s.retention_checks);
     rep.add("lsm.entries-dropped-by-compactions", s.entries_dropped);
